@@ -118,7 +118,8 @@ def run_with_plan(inputs, plan=None, grace=0.0, workers=1):
                                "mcs_results": list(r["mcs"]["mcs_results"]) if r.get("mcs") else None,
                                "sorted_reactants": list(r["mcs"]["sorted_reactants"]) if r.get("mcs") else None,
                                "mcs_id": r["mcs"].get("id") if r.get("mcs") else None, "id": r.get("id"),
-                               "carbon": r.get("carbon_balance_check"), "reaction": r.get("reaction")} for r in reactions]
+                               "carbon": r.get("carbon_balance_check"), "reaction": r.get("reaction"),
+                               "side_keys": [r.get("reactants") if isinstance(r.get("reactants"), str) else None, r.get("products") if isinstance(r.get("products"), str) else None]} for r in reactions]
         state["rows"] = reactions
         return out
     patch(MCSSearch, "find", find)
